@@ -61,8 +61,9 @@ pub fn build(mask: u32, network: u8, set_rank: usize) -> tir::Tx {
     });
     if has(mask, "two-utxo-input") {
         let us = vec![
+            // two outputs of one transaction: only the full (txid, index) key orders them
             tirb::utxo(uref(0x22, 4), &addr, CanonicalAssets::from_naked_amount(3_000_000)),
-            tirb::utxo(uref(0x44, 0), &addr, CanonicalAssets::from_naked_amount(3_000_000)),
+            tirb::utxo(uref(0x22, 0), &addr, CanonicalAssets::from_naked_amount(3_000_000)),
         ];
         tx.inputs.push(tir::Input {
             name: "b".into(),
